@@ -401,6 +401,65 @@ func checkC13(p *Prog, res *Result, tier string) {
 						}
 					}
 				}
+				// .. and element k of that list is partition k's receiver: a list that is a captured variable of the
+				// driver is filled by the workers at their own index, never reassigned (appended to) by them
+				if okOrder {
+					if ld, ok := resolve(arg).(*ssa.UnOp); ok {
+						if ia, ok := ld.X.(*ssa.IndexAddr); ok {
+							if cl, ok := ia.X.(*ssa.UnOp); ok && cl.Op == token.MUL {
+								if cell, ok := cl.X.(*ssa.Alloc); ok {
+									for wi, worker := range workers {
+										filled, reassigned := 0, ssa.Instruction(nil)
+										isCell := func(v ssa.Value) bool {
+											fv, ok := v.(*ssa.FreeVar)
+											if !ok {
+												return false
+											}
+											for _, b := range p.freeVarBindings(fv) {
+												if b == ssa.Value(cell) {
+													return true
+												}
+											}
+											return false
+										}
+										for _, b := range worker.Blocks {
+											for _, ins := range b.Instrs {
+												st, ok := ins.(*ssa.Store)
+												if !ok {
+													continue
+												}
+												if isCell(st.Addr) {
+													reassigned = st
+												}
+												if sia, ok := st.Addr.(*ssa.IndexAddr); ok {
+													if l2, ok := sia.X.(*ssa.UnOp); ok && l2.Op == token.MUL && isCell(l2.X) {
+														if prm, _ := ownIndexOf(sia.Index, worker); prm != nil {
+															filled++
+														}
+													}
+												}
+											}
+										}
+										c2 := fmt.Sprintf("%s: worker #%d puts its receiver at its partition index of the merged list", funcName(scanFn), wi+1)
+										switch {
+										case reassigned != nil:
+											okOrder = false
+											res.bad("C13-R3", c2, p.pos(reassigned.Pos()), "a worker goroutine appends to (reassigns) the list the driver merges: the list is in completion order, so an unlimited range read over several partitions returns keys out of ascending order")
+										case filled == 0:
+											okOrder = false
+											res.bad("C13-R3", c2, p.pos(worker.Pos()), "the worker does not store its receiver at its own index of the list the driver merges")
+										default:
+											res.ok("C13-R3", c2, p.pos(worker.Pos()), fmt.Sprintf("%d store(s) at the own index, no reassignment", filled))
+										}
+									}
+								}
+							}
+						}
+					}
+					if !okOrder {
+						break
+					}
+				}
 				if okOrder {
 					res.ok("C13-R3", construct, p.pos(merge.Pos()), joinWhat+" precedes the merge loop on every path, which ranges over the receiver list by ascending index")
 				} else {
